@@ -16,7 +16,7 @@ from .. import rig as R, ref, gen, qcore, env, dump
 from ..orch import h
 
 ID = "C02"
-TECHNIQUE = 'runtime monitoring - completeness oracle over store dumps: every stored event that must-match a filter under its limit is owed before EOSE, at most once per matching filter; LMDB query plans tapped for coverage; small-scope exhaustive filters + seeded random conjunctions'
+TECHNIQUE = 'runtime monitoring - completeness oracle over store dumps: every stored event that must-match a filter under its limit is owed before EOSE, at most once per matching filter; LMDB query plans tapped for coverage; small-scope exhaustive filters + seeded random conjunctions; end-to-end shard: events stored through different worker processes, every REQ asked on EVERY worker (complete, and the same answer everywhere) and again after a restart on the same files'
 LEVEL = "exploration"
 RULE = (
     "cases = (backend, dense seeded store, REQ of 1-5 well-formed filters). Stores of 12 events are queried with "
@@ -29,13 +29,14 @@ RULE = (
     "(backend, store seed, canonical filter list)."
 )
 ASSUMPTIONS = [
+    "end-to-end shards: a real gunicorn/uvicorn server process tree started from the tree under test (vf/e2e_launch.py: the repository's run_with_gunicorn / run_with_uvicorn; the SQL schema is made with the repository's metadata.create_all because its alembic env.py does not run with the installed SQLAlchemy; the notifier's fixed TCP port 6000 is replaced by a free port), spoken to over loopback TCP with the websockets client; real time, real sleeps",
     "LMDB backend runs over /verif/shim (ctypes binding of real liblmdb 0.9.31 + pure-python msgpack)",
     "SQL backend = SQLite; PostgreSQL branches not reached; whoosh absent so 'search' is inert",
     "filters in the completeness domain are well-typed with at least one NIP-01 condition; events matching only "
     "through a NIP-26 delegator or only at a since/until bound carry no must-deliver obligation",
 ]
 MIN_NONTRIVIAL = {"quick": 500, "thorough": 5000}
-REQUIRED_COUNTERS = ["reqs_with_obligation", "events_owed", "tight_limits", "reqs_with_unmatchable_filter"]
+REQUIRED_COUNTERS = ["e2e.e2e_reqs_answered", "e2e.e2e_completeness_obligations", "reqs_with_obligation", "events_owed", "tight_limits", "reqs_with_unmatchable_filter"]
 REQUIRED_COVERAGE = {
     "quick": ["lmdb_plans.IdIndex", "lmdb_plans.CreatedIndex", "lmdb_plans.KindIndex", "lmdb_plans.PubkeyIndex",
               "lmdb_plans.AuthorKindIndex", "lmdb_plans.TagIndex", "lmdb_plans.MultiIndex"],
@@ -47,6 +48,18 @@ MAX_LIMIT = 6000
 
 
 def plan(tier, seed):
+    return _plan(tier, seed) + e2e_plan(tier, seed)
+
+
+def e2e_plan(tier, seed):
+    """shards on a REAL server process tree (vf/e2e.py)"""
+    out = [{"mode": "e2e", "e2e": "query", "backend": "sql", "workers": 2, "seed": seed }, {"mode": "e2e", "e2e": "query", "backend": "lmdb", "workers": 3, "seed": seed }]
+    if tier == "thorough":
+        out += [{"mode": "e2e", "e2e": "query", "backend": b, "workers": w, "seed": seed + 10 + w, "nreqs": 150} for b in ("sql", "lmdb") for w in (2, 4)]
+    return out
+
+
+def _plan(tier, seed):
     shards = []
     if tier == "quick":
         n, small, big, reqs = 8, 1, 2, 160
@@ -261,6 +274,10 @@ def _dedup(viols, cap=2):
 
 
 def run_shard(spec):
+    if spec.get("mode") == "e2e":
+        from .. import e2e_cases
+
+        return e2e_cases.run_e2e_shard(ID, spec)
     counters, coverage = {}, {"backends": {spec["backend"]: 1}}
     viols, nontrivial, samples = [], [], []
     seeds = [("small", spec["case_seed"] * 31 + s) for s in range(spec["small"])] + \
@@ -277,6 +294,10 @@ def run_shard(spec):
 
 
 def replay(rp, spec):
+    if rp.get("mode") == "e2e":
+        from .. import e2e_cases
+
+        return e2e_cases.run_e2e_shard(ID, rp)
     counters, coverage = {}, {}
     v, nt, sm = R.run(run_store, rp["backend"], 0, "explicit", 0, counters, coverage, rp)
     v, seen = _dedup(v, cap=50)
